@@ -131,6 +131,8 @@ def _apply_seq(sem, op):
         return ('NoResourcesAvailable', None)
     except ValueError:
         return ('ValueError', None)
+    except Exception as e:       # any other outcome is an observation, not a harness error
+        return ('error:' + type(e).__name__, None)
     raise AssertionError(op)
 
 
